@@ -162,6 +162,7 @@ def check(run):
     _r5(run, mi)
     _r6(run, mi)
     _r7(run, mi)
+    _r8(run, mi)
 
 
 # ---------------------------------------------------------------------------------------------
@@ -547,6 +548,44 @@ def _r6(run, mi):
     run.ok('C09-R6', 'module-level mutable state', '%d module-level containers, %d cache stores' % (len(globals_), n), sample=True)
 
 
+def _r8(run, mi):
+    """R8: the profile interpolators are piecewise linear.  Between two nodes a linear interpolant is a convex combination of node values, so
+    fractions stay in [0, 1] and the charge states still sum to one (to the element density); a cubic (or any higher) interpolant overshoots
+    where the profile is steep and breaks both."""
+    run.describe('C09-R8', 'interpolators built from abundances / densities are linear (bounds and sums are preserved between the nodes)')
+    from ..inline import resolver
+    n = 0
+    for name, fn in sorted(mi.functions.items()):
+        res = None
+        for c in [c for c in ast.walk(fn) if isinstance(c, ast.Call) and dotted(c.func) in ('Interpolator1DArray', 'Interpolator2DArray', 'Interpolator3DArray')]:
+            nd = int(dotted(c.func)[12])
+            # positional layout: nd axes, the data, the interpolation type (a starred axes tuple stands for nd arguments)
+            pos = []
+            for a_ in c.args:
+                if isinstance(a_, ast.Starred):
+                    pos.extend([None] * nd)
+                else:
+                    pos.append(a_)
+            kind = pos[nd + 1] if len(pos) > nd + 1 else next((k.value for k in c.keywords if k.arg == 'interpolation_type'), None)
+            n += 1
+            run.subject('C09-R8')
+            if kind is None:
+                run.undecided('C09-R8', '%s %s' % (name, dotted(c.func)), 'interpolation type argument not found')
+                continue
+            if isinstance(kind, ast.Name):
+                res = res or resolver(fn)
+                kind = res(kind)
+            if isinstance(kind, ast.Constant) and kind.value == 'linear':
+                run.ok('C09-R8', '%s %s' % (name, dotted(c.func)), 'linear', sample=False)
+            elif isinstance(kind, ast.Constant) and isinstance(kind.value, str):
+                run.fail('C09-R8', '%s|%s|interpolation:%s' % (MOD, name, kind.value), FILE, c.lineno,
+                         "%s builds its %s with '%s' interpolation: between the nodes of a steep profile the interpolant overshoots, so abundances leave "
+                         "[0, 1] and no longer sum to one, and the result disagrees with the 1D / density siblings" % (name, dotted(c.func), kind.value))
+            else:
+                run.undecided('C09-R8', '%s %s' % (name, dotted(c.func)), 'interpolation type is %s' % norm(kind)[:40])
+    run.floor('C09-R8', 4)
+
+
 def _r7(run, mi):
     """R7: no function changes the arrays it is given (the densities of the other species, the profiles): results may not depend on,
     nor destroy, the caller's data.  R8: buffers that receive computed floats are not typed after an input array."""
@@ -818,6 +857,7 @@ def _r4(run, mi):
 
 
 MUTANTS = [
+    dict(name='fractional-2d-interpolators-cubic', file=FILE, find="Interpolator2DArray(*free_variable, item, 'linear', 'none', 0, 0)", replace="Interpolator2DArray(*free_variable, item, 'cubic', 'none', 0, 0)", occurrence=0, of=2, expect='C09-R8'),
     dict(name='species-charge-summed-in-place', file=FILE, find="        for index, value in enumerate(abundance):\n            element_n_e -= index * value\n",
          replace="        abundance *= np.arange(len(abundance))\n        element_n_e -= np.sum(abundance)\n", expect='C09-R7'),
     dict(name='function-buffer-typed-after-the-free-variable', file=FILE, find="            array = np.zeros(free_variable.shape)", replace="            array = np.zeros_like(free_variable)", expect='C09-R7'),
